@@ -59,8 +59,8 @@ def _sem_mc(prop, tier, res):
     if tier == "thorough":
         res.add_mc(require_mc(tlc_mc("MC_Sem", "MC_Sem_n3s.cfg", workers=12, timeout=1800)))
         if prop == "C01":
-            # every ADF over three statements (16.7 M), staged so that all workers take part; best effort within an hour
-            res.add_mc(require_mc(tlc_mc("MC_Sem3", "MC_Sem3.cfg", workers=16, timeout=3600, xmx="24g", allow_timeout=True)))
+            # every ADF over three statements (16.7 M), staged so that all workers take part; best effort within 20 minutes
+            res.add_mc(require_mc(tlc_mc("MC_Sem3", "MC_Sem3.cfg", workers=16, timeout=1200, xmx="24g", allow_timeout=True)))
 
 
 @register("C01", "C02", "C03")
